@@ -240,8 +240,8 @@ def square (f : Fe) : Option Fe := do
   let d4 ← mul64 d419 2
   let a ← add128 (mul128 r0 r0) (mul128 d4 r1)
   let t0 ← add128 a (mul128 d2 r3)
-  let r319 ← mul64 r3 19
   let a ← add128 (mul128 d0 r1) (mul128 d4 r2)
+  let r319 ← mul64 r3 19
   let t1 ← add128 a (mul128 r3 r319)
   let a ← add128 (mul128 d0 r2) (mul128 r1 r1)
   let t2 ← add128 a (mul128 d4 r3)
